@@ -123,6 +123,21 @@ func c05Run(r *core.Run) {
 		pckEP().Body = world.MakeCRL(w.PckCrl, w.CA, fk)
 		pckEP().Hdr = map[string][]string{world.HdrPckCrl: {world.IssuerChainHeader(look, lookRoot)}}
 	})
+	add("signer:pckcrl-by-second-ca-of-the-same-name-under-the-genuine-root", rej, "the PCK CRL (an empty one, while the genuine CRL revokes the leaf) is signed by ANOTHER CA certificate that the genuine root issued under the Platform CA's name, delivered in the response header: it is not the issuer of the leaf", func() {
+		k2 := world.NewKey(t)
+		sp := w.A.PlatSpec
+		if w.CAID == "processor" {
+			sp = w.A.ProcSpec
+		}
+		sp.Serial, sp.SKI = world.RandSerial(t), t.Bytes(20)
+		ca2 := world.Issue(sp, k2, w.A.Root, w.A.RootKey)
+		w.PckCrl.Revoked = append(w.PckCrl.Revoked, leaf) // what the genuine CA says
+		w.Publish()
+		clean := w.PckCrl
+		clean.Revoked = nil
+		pckEP().Body = world.MakeCRL(clean, ca2, k2)
+		pckEP().Hdr = map[string][]string{world.HdrPckCrl: {world.IssuerChainHeader(ca2, w.A.Root)}}
+	})
 	add("signer:pckcrl-by-intermediate-key-in-other-name", rej, "the PCK CRL names another issuer than the leaf's issuer", func() { pckEP().Body = world.MakeCRL(w.PckCrl, w.A.Proc, w.CAKey) })
 	add("signer:rootcrl-by-root-key-in-other-name", rej, "the Root CA CRL names another issuer than the chain's root", func() {
 		w.PCS.ByURL[rootURL].Body = world.MakeCRL(w.RootCrl, w.A.Plat, w.A.RootKey)
